@@ -116,6 +116,7 @@ def groups_of(c):
         g.append({"opt": "A", "regex": False, "specs": c["specs"]})
     if c["rspecs"]:
         g.append({"opt": "R", "regex": False, "specs": c["rspecs"]})
+    c["groups"] = g
     return g
 
 
@@ -1270,6 +1271,17 @@ def evaluate(ctx, batches, name="cases"):
         evals.append(("mismatch%d" % bi, "bad_indices (t_agrees syms%d) cases%d 0" % (bi, bi)))
         evals.append(("violations%d" % bi, "bad_indices t_ok cases%d 0" % bi))
         evals.append(("sviolations%d" % bi, "bad_indices t_ok_script cases%d 0" % bi))
+        # the spec list libmcount holds (SPECS) against the model of add_arg_spec applied to the options as given
+        tabs = []
+        for c in cases:
+            gs = groups_of(c)
+            opts = [g for g in gs if g["opt"] == "A"] + [g for g in gs if g["opt"] == "R"]
+            tabs.append("([%s], [%s])" % (
+                "; ".join("(%s, [%s])" % (coq.coq_bool(not g.get("regex")), "; ".join(coq_spec(x) for x in c["gparsed"][id(g)]))
+                          for g in opts),
+                "; ".join(coq_spec(m) for m in c["mspecs"])))
+        defs.append("Definition tabs%d : list (list (bool * list spec) * list spec) := [\n%s\n]." % (bi, ";\n".join(tabs)))
+        evals.append(("tmismatch%d" % bi, "bad_indices (fun p => specs_eqb (merge_opts (fst p)) (snd p)) tabs%d 0" % bi))
     res = coq.run_cases(ctx, name, PRE, "\n".join(defs), evals)
     if res is None:
         return None
@@ -1278,6 +1290,7 @@ def evaluate(ctx, batches, name="cases"):
         out["mismatch"] += [(bi, i) for i in coq.parse_nat_list(res["mismatch%d" % bi])]
         out["violations"] += [(bi, i) for i in coq.parse_nat_list(res["violations%d" % bi])]
         out["script"] |= set((bi, i) for i in coq.parse_nat_list(res["sviolations%d" % bi]))
+        out.setdefault("table", []).extend((bi, i) for i in coq.parse_nat_list(res["tmismatch%d" % bi]))
     return out
 
 
@@ -1378,6 +1391,11 @@ def int_cands(v, bits):
         u = v % (1 << b)
         sgn = u - (1 << b) if u >= (1 << (b - 1)) else u
         out |= {str(u), str(sgn), "0" if u == 0 else hex(u), "0" if u == 0 else "0" + oct(u)[2:]}
+        if b < 64:
+            # a narrower value in a 64-bit stack slot: the bits above it are not defined by the ABI, compilers
+            # sign-extend an immediate (pushq) - the same value at its own width
+            x = sgn % (1 << 64)
+            out |= {str(x), hex(x), "0" + oct(x)[2:]} if x else set()
     return sorted(out)
 
 
@@ -1634,7 +1652,8 @@ def e2e_scripts(ctx, impl, funcs, items, d, data, exe, tag):
     return out
 
 
-def e2e_run(ctx, impl, funcs, tag, extra_opts=(), judge_ret=True, scripts=False, nonleaf=False):
+def e2e_run(ctx, impl, funcs, tag, extra_opts=(), judge_ret=True, scripts=False, nonleaf=False, explicit=None,
+            libc_lines=None):
     """compile, record with --auto-args (+ extra -A/-R options), replay; returns list of (func, problem or None).
     judge_ret=False: the extra options put further return value specs in front, only the arguments and the
     completeness of the call sequence are judged"""
@@ -1685,7 +1704,7 @@ def e2e_run(ctx, impl, funcs, tag, extra_opts=(), judge_ret=True, scripts=False,
         funcs = [f for f in funcs if f is not lost]
     elif want is not None:
         # library calls whose specs come from the built-in auto-args table
-        for line in E2E_LIBC_LINES:
+        for line in (libc_lines or E2E_LIBC_LINES):
             if not re.search(rb"(?m)^" + re.escape(line) + rb"$", p.stdout):
                 out.append((funcs[-1], "--auto-args on a library call: replay has no line %r (it shows %r)"
                             % (line.decode(), [l for l in p.stdout.split(b"\n") if l.startswith(line[:6])])))
@@ -1694,6 +1713,15 @@ def e2e_run(ctx, impl, funcs, tag, extra_opts=(), judge_ret=True, scripts=False,
         if sp is None or f["name"] not in shown:
             out.append((f, "no debug info / no replay line for %s" % f["name"]))
             continue
+        if explicit and f["name"] in explicit:
+            # an explicit -A / -R spec for a function --auto-args knows too: libmcount keeps the explicit spec of that
+            # direction only (update_filter: "ignore auto-args if it already has argspec"), the readers must do the same
+            ex = explicit[f["name"]]
+            if ex.get("A"):
+                sp = dict(sp, A=[ex["A"]])
+                f = dict(f, actual=[f["actual"][ex["j"]]])
+            if ex.get("R"):
+                sp = dict(sp, R=[ex["R"]])
         if len(sp["A"]) != len(f["actual"]) or (f["ractual"] is not None and len(sp["R"]) != 1):
             out.append((f, "--auto-args produced %d argument specs (%s) for %d parameters, %d return specs"
                         % (len(sp["A"]), ",".join(sp["A"]), len(f["actual"]), len(sp["R"]))))
@@ -1716,8 +1744,12 @@ def e2e_run(ctx, impl, funcs, tag, extra_opts=(), judge_ret=True, scripts=False,
         res = coq.run_cases(ctx, "e2e_" + re.sub(r"\W", "_", tag), PRE, defs, [
             ("bad", "bad_indices (fun x => match x with (a, r, ta, tr) => ok_args a ta && ok_ret r tr end) items 0")])
         bad = set(coq.parse_nat_list(res["bad"])) if res else set()
+        if bad and os.environ.get("C09_DEBUG"):
+            open("/var/tmp/C09-exp/bad-%s.v" % re.sub(r"\W", "_", tag), "w").write(defs + "\n(* bad: %r *)\n" % sorted(bad))
         for i, (f, pa, pr) in enumerate(items):
             out.append((f, ("replay shows %s%s" % f["shown"]) if i in bad else None))
+        if explicit:
+            out += e2e_dump(ctx, impl, funcs, items, data)
         if scripts:
             out += e2e_scripts(ctx, impl, funcs, items, d, data, exe, tag)
             out += e2e_dump(ctx, impl, funcs, items, data)
@@ -1858,11 +1890,36 @@ def e2e(ctx, impl):
         # before the (floating-point) return value is captured
         both = ["-R", "^g[0-9]+$@retval/f", "-R", "^g[1-9][0-9]*$@retval/x"]
         rdtr = ["-T", "^g[1-9][0-9]*$@read=proc/statm"]
+        # (d) --auto-args plus an explicit -A / -R for functions auto-args knows too (DWARF functions and libc functions
+        # of the built-in table), naming another set of arguments: writer and readers must build the same spec list
+        explicit, mixed = {}, []
+        for f in funcs:
+            simple = 0
+            while simple < min(len(f["actual"]), 6) and f["actual"][simple][0] in ("txt", "strv", "null") and \
+                    (f["actual"][simple][0] != "txt" or f["actual"][simple][2][0] in ("ints", "str", "anyint")):
+                simple += 1
+            def numeric(a):
+                # a plain integer (its text candidates are numbers; an enum is shown by name only with its own spec)
+                return a[0] == "txt" and a[2][0] == "ints" and all(re.match(r"^-?\d|^0x", t) for t in a[1])
+            cand = [j for j in range(simple) if f["actual"][j][0] in ("strv", "null") or numeric(f["actual"][j])]
+            if cand and ctx.rng.random() < 0.6:
+                j = ctx.rng.choice(cand)
+                spec = "arg%d/%s" % (j + 1, "s" if f["actual"][j][0] in ("strv", "null") else ctx.rng.choice(["x", "d", "u"]))
+                explicit[f["name"]] = {"A": spec, "j": j}
+                mixed += ["-A", "%s@%s" % (f["name"], spec)]
+            if f["ractual"] is not None and numeric(f["ractual"]) and ctx.rng.random() < 0.4:
+                explicit.setdefault(f["name"], {})["R"] = "retval/x"
+                mixed += ["-R", "%s@retval/x" % f["name"]]
+        mixed += ["-A", "strcmp@arg2/s", "-R", "getenv@retval/p"]
+        mixed_libc = [b'  atoi("4217") = 4217;', b'  strcmp("zebra") = 0;', b'  getenv("C09_NOT_SET") = 0;']
         for variant, opts, judge_ret in (("auto-args", [], True), ("auto-args+explicit-retvals", both, False),
-                                         ("auto-args+read-trigger", rdtr, True)):
+                                         ("auto-args+read-trigger", rdtr, True), ("auto-args+explicit-specs", mixed, True)):
             nbad = 0
-            for f, problem in e2e_run(ctx, impl, funcs, "p%d%s" % (rnd, "x" if opts is both else "r" if opts else ""),
-                                      opts, judge_ret, scripts=not opts, nonleaf=opts is rdtr):
+            for f, problem in e2e_run(ctx, impl, funcs, "p%d%s" % (rnd, "x" if opts is both else "r" if opts is rdtr
+                                                                   else "m" if opts is mixed else ""),
+                                      opts, judge_ret, scripts=not opts, nonleaf=opts is rdtr,
+                                      explicit=explicit if opts is mixed else None,
+                                      libc_lines=mixed_libc if opts is mixed else None):
                 if f is None:
                     ctx.broken("end-to-end run failed: " + problem)
                     continue
@@ -1926,6 +1983,12 @@ def prepare(impl, cases):
     for c in cases:
         if "slots" not in c:
             finish_slots(c)
+        c["gparsed"] = {}
+        for g in groups_of(c):
+            ps = impl.parse_specs(g["specs"])
+            if any(x is None for x in ps):
+                raise RuntimeError("generated spec rejected by parse_argspec: %r" % (g["specs"],))
+            c["gparsed"][id(g)] = ps
 
 
 def public(c):
@@ -2048,6 +2111,12 @@ def verdict(ctx, batches, res, what="generated"):
                 if seen <= 3:
                     ctx.violation("C09 violated (%s case): %s" % (what, bad),
                                   {"mode": "dump", "case": public(c), "observed": observed(c)}, True)
+    for bi, i in res.get("table", [])[:2]:
+        c = batches[bi][i]
+        ctx.violation("the spec list libmcount builds from the -A/-R options differs from the model of add_arg_spec / "
+                      "update_trigger (the readers rebuild their list with the same routines)",
+                      {"mode": "spec-table", "case": public(c), "libmcount_list": c["mspecs"],
+                       "options": [[g["opt"], bool(g.get("regex")), g["specs"]] for g in groups_of(c)]}, False)
     mism = [(bi, i) for bi, i in res["mismatch"] if batches[bi][i]["obs"]["args_text"] is not None]
     if mism and not seen:
         bi, i = mism[0]
